@@ -45,6 +45,10 @@ var (
 	ErrInt64UnderflowsUint64 = errors.New("int64 underflows uint64")
 	// ErrFloat64UnderflowsUint64 is returned if when converting an float6464 to a uint64 underflow uint64
 	ErrFloat64UnderflowsUint64 = errors.New("float64 underflows uint64")
+	// ErrFloat64OverflowsUint64 is returned if when converting a float64 to a uint64 overflow uint64
+	ErrFloat64OverflowsUint64 = errors.New("float64 overflows uint64")
+	// ErrFloat64NotFinite is returned if a float64 value is NaN or infinite
+	ErrFloat64NotFinite = errors.New("float64 value is NaN or infinite")
 )
 
 var maxDecimal decimal.Decimal
@@ -192,6 +196,13 @@ func Int64ToCoin(a int64) (Coin, error) {
 func Float64ToCoin(a float64) (Coin, error) {
 	if a < 0 {
 		return 0, ErrFloat64UnderflowsUint64
+	}
+	if math.IsNaN(a) {
+		return 0, ErrFloat64NotFinite
+	}
+	// 1<<64 is the smallest float64 that does not fit in a uint64
+	if a >= 1<<64 {
+		return 0, ErrFloat64OverflowsUint64
 	}
 	return Coin(a), nil
 }
